@@ -42,22 +42,37 @@ P = {
              "Grammar tables are regenerated from the parser's ATN and re-checked by the kernel on every run. Probe: independent validator.",
              note="positivity of mass/radical values is what the readers must establish (defect F2, repaired).",
              tech="Lean 4 proof over regenerated grammar tables + correspondence + independent validator"),
- "C06": dict(text="Corollary of C01's theorem: the relation under which the pipeline is invariant (Iso SameIdent) constrains only element, mass, "
-             "radical and the neighbour sets; charges, coordinates, bond records, other attributes, numbering and listing are free "
-             "(C06_identity_only, C06_identity_only_renumbered, C06_sameIdent_ignores). Probe: paired molfile renderings differing in non-identity data.",
-             note="that the readers map such renderings to Iso SameIdent-related graphs is checked by correspondence and probe (C07/C08).",
-             tech="Lean 4 proof (corollary of C01) + correspondence + paired-rendering probe"),
- "C07": dict(text="Proved about the reader model: splicing restores a logical line split at ANY positions; tokenisation with arbitrary blank runs; "
-             "integer fields; element symbols known; D/T; explicit zero = default; the atom line under every property order with other "
-             "keywords in between and ENDPTS expansion (V3000Lines, when built). The whole reader is tied by correspondence on "
-             "spec-derived renderings and the probe compares the real reader's graph with the abstract molecule.",
-             note="float parsing is opaque (coordinates are tokens); the file-level theorem is proved for the writer's own rendering (C09), "
-                  "general renderings are covered line by line.",
-             tech="Lean 4 proof (line machinery, atom/bond lines) + reader model correspondence + renderer probe"),
- "C08": dict(text="Proved about the V2000 reader model: fixed-width fields; M  CHG/RAD/ISO lines decoded entry by entry for any number of entries; "
-             "the property block: supersession of all atom-block codes, D/T mass kept unless named, zero = no value, unrelated lines and "
-             "everything after M  END ignored; charge-code table. Tied by correspondence on rendered V2000/V3000 pairs; probe compares both readers.",
-             note="float parsing is opaque.", tech="Lean 4 proof (columns, property block) + correspondence + paired V2000/V3000 probe"),
+ "C06": dict(text="Corollary of C01's theorem: the relation under which the pipeline is invariant (Iso SameIdent) constrains only element, "
+             "mass, radical and the neighbour sets (C06_identity_only, C06_identity_only_renumbered, C06_sameIdent_ignores). Carried "
+             "down to the text of the files: two molfile texts, each V3000 or V2000, with any header lines, any of the three line- "
+             "ending styles, any permitted spelling of the table and anything after it, that state molecules of the same identity "
+             "(same element/mass/radical per atom position, D = hydrogen-2, same bonded pairs in any order and orientation) get the "
+             "same string whatever they say about charges, bond types, annotations and coordinates (C06_files_same_string, "
+             "C06_v3000_file_readsAs, C06_v2000_file_readsAs, C06_line_endings). Probe: paired molfile renderings differing in non- "
+             "identity data, line endings in memory and through graph_from_file.",
+             note="the file-level theorem takes atom positions as given (consecutive V3000 indices); arbitrary index values are covered at "
+                  "graph level by C06_identity_only_renumbered + C07_consecutive_renumbering and by the probe.",
+             tech="Lean 4 proof (corollary of C01, file level through both reader models) + correspondence + paired-rendering probe"),
+ "C07": dict(text="Proved about the reader model, for the whole connection table under every spelling the format permits "
+             "(C07_connection_table_every_spelling: blank runs, continuation at ANY split points, any order of key=value properties "
+             "with other keywords in between, sparse/unordered indices, star atoms with ENDPTS expansion, explicit zeros, D/T; "
+             "C07_consecutive_renumbering: arbitrary unique indices are renumbered in file order; C07_text_to_graph: from the text, "
+             "any line-ending style, through version dispatch to the graph), plus the line-level lemmas. The reader is tied by "
+             "correspondence on spec-derived renderings, a malformed stream, star-atom special forms, renderings with unusual "
+             "characters, and the interpreter's string layer itself (character classes of every code point, "
+             "int/float/splitlines/rstrip/split); the probe compares the real reader's graph with the abstract molecule.",
+             note="float parsing is opaque (coordinates are tokens whose acceptance by float() is modelled, not their value).",
+             tech="Lean 4 proof (file-level reader theorem for every spelling) + reader model correspondence incl. string layer + renderer probe"),
+ "C08": dict(text="Proved about the V2000 and V3000 reader models: C08_readers_agree - a V3000 table and a V2000 table that state the same "
+             "molecule (charges/radicals by atom-block charge codes OR by M  CHG / M  RAD lines listing every atom with a value once, "
+             "any chunking, order and interleaving, decoy codes superseded; isotopes by M  ISO lines; D/T by symbol) are read as the "
+             "same atom and bond dictionaries up to the spelling of coordinates; C08_same_string - hence the same TUCAN string, at "
+             "text level with any line endings; C08_connection_table, C08_property_block, C08_property_line_entries, "
+             "C08_fixed_width_fields, C08_charge_codes, C08_hydrogen_isotopes. Non-vacuity: a concrete pair of files meets every "
+             "hypothesis. Tied by correspondence on rendered V2000/V3000 pairs (incl. >99 atoms, explicit zero entries, blank "
+             "coordinate fields, unusual characters); probe compares both readers with the molecule and each other.",
+             note="float parsing is opaque.",
+             tech="Lean 4 proof (reader agreement on every stated molecule) + correspondence + paired V2000/V3000 probe"),
  "C09": dict(text="Proved about writer and reader models, for every line length and any atom count: the written file has no line over 79 characters, "
              "and reading it back returns the same atoms in order with the same element, charge, radical, mass, coordinate tokens and the "
              "same bonds and bond types (C09_write_read); plus the line-level lemmas. Probe: real write→read with length-targeted lines.",
